@@ -2234,5 +2234,69 @@ end Goml.Gen
 
 EXTRACTORS += [gocomp_gen_tables]
 
+# ---------------------------------------------------------------- C14: the maps of the link environment
+def c14_struct_fields(text, name):
+    m = re.search(r"pub struct " + name + r"\s*\{(.*?)\n\}", text, re.S)
+    if not m:
+        raise Exception(f"c14: struct {name} not found")
+    fields = re.findall(r"^\s*pub (\w+)\s*:\s*([^\n]+?),?\s*$", m.group(1), re.M)
+    if not fields:
+        raise Exception(f"c14: struct {name} has no fields")
+    return fields
+
+def c14_exports_tables():
+    """env.rs: the maps of TypeEnv / TraitEnv / ValueEnv; artifact.rs: the loops of PackageExports::apply_to and the
+    fields of PackageExports / to_genv.  Theorems (Props/C14.lean) `decide` that apply_to copies every map."""
+    env = src("crates/compiler/src/env.rs")
+    art = src("crates/compiler/src/artifact.rs")
+    genv = [f for f, _ in c14_struct_fields(env, "GlobalTypeEnv")]
+    exports = [f for f, _ in c14_struct_fields(art, "PackageExports")]
+    maps, nonmaps = [], []
+    for part, ty in c14_struct_fields(env, "GlobalTypeEnv"):
+        for f, fty in c14_struct_fields(env, ty.strip()):
+            (maps if fty.startswith("IndexMap<") else nonmaps).append(f"{part}.{f}")
+    m = re.search(r"pub fn apply_to\(&self, genv: &mut GlobalTypeEnv\) \{(.*?)\n    \}\n", art, re.S)
+    if not m:
+        raise Exception("c14: PackageExports::apply_to not found")
+    body = m.group(1)
+    loops = re.findall(r"for \((\w+), (\w+)\) in self\.(\w+)\.(\w+)\.iter\(\) \{\s*genv\s*\.(\w+)\s*\.(\w+)\s*\.insert\(\s*(\w+)\.clone\(\),\s*(\w+)\.clone\(\)\s*\);\s*\}", body)
+    if len(loops) != body.count("for ") or not loops:
+        raise Exception("c14: apply_to has a loop of an unexpected shape")
+    applied = []
+    for k, v, e1, f1, e2, f2, k2, v2 in loops:
+        if (e1, f1) != (e2, f2) or (k, v) != (k2, v2):
+            raise Exception(f"c14: apply_to loop copies {e1}.{f1} into {e2}.{f2}")
+        applied.append(f"{e1}.{f1}")
+    m = re.search(r"pub fn to_genv\(&self\) -> GlobalTypeEnv \{\s*GlobalTypeEnv \{(.*?)\}\s*\}", art, re.S)
+    if not m:
+        raise Exception("c14: PackageExports::to_genv not found")
+    togenv = re.findall(r"(\w+): self\.(\w+)\.clone\(\)", m.group(1))
+    ls = lambda xs: "[" + ", ".join('"' + x + '"' for x in xs) + "]"
+    write_if_changed("Exports.lean", f"""/- GENERATED by tools/extract.py (c14_exports_tables) from crates/compiler/src/env.rs and artifact.rs — do not edit -/
+namespace Goml.Gen.Exports
+
+/-- the parts of `GlobalTypeEnv` (env.rs) -/
+def genvParts : List String := {ls(genv)}
+
+/-- the fields of `PackageExports` (artifact.rs) -/
+def exportsParts : List String := {ls(exports)}
+
+/-- every `IndexMap` of `TypeEnv` / `TraitEnv` / `ValueEnv`, as `part.field` -/
+def envMaps : List String := {ls(maps)}
+
+/-- fields of those structs that are not an `IndexMap` (none expected: `apply_to` could not merge them) -/
+def envOther : List String := {ls(nonmaps)}
+
+/-- the maps `PackageExports::apply_to` extends, in the order of its loops -/
+def appliedMaps : List String := {ls(applied)}
+
+/-- `PackageExports::to_genv`: (field of `GlobalTypeEnv`, field of `PackageExports` it is cloned from) -/
+def toGenv : List (String × String) := [{", ".join('("' + a + '", "' + b + '")' for a, b in togenv)}]
+
+end Goml.Gen.Exports
+""")
+
+EXTRACTORS += [c14_exports_tables]
+
 if __name__ == "__main__":
     main()
